@@ -161,8 +161,14 @@ static Plan gen_table(const std::string &prop, const std::string &tier, uint64_t
 		p.seti("bsize", 1024);
 		p.set("bsize_set", "1");
 		p.seti("rint", r.chance(4, 5) ? 1 + r.below(6) : 16);
-		gen_sorted_adds(p, r, 8 + r.below(r.chance(1, 4) ? 300 : 90), r.chance(1, 2) ? 60 : 200);
-		gen_iter_history(p, r, 5 + (int)r.below(76));
+		if (r.chance(1, thorough ? 25 : 150)) {
+			// exhaustive (position, target) sweep over a small multi-block table
+			gen_sorted_adds(p, r, 6 + r.below(30), 600);
+			p.op("sweepseek", { std::to_string(r.chance(1, 2) ? 0 : r.below(4)), "40" });
+		} else {
+			gen_sorted_adds(p, r, 8 + r.below(r.chance(1, 4) ? 300 : 90), r.chance(1, 2) ? 60 : 200);
+			gen_iter_history(p, r, 5 + (int)r.below(76));
+		}
 	} else if (prop == "C08") {
 		gen_writer_cfg(p, r, true, false, true);
 		p.set("sched", sched_cfg_gen(r, 600));
